@@ -124,10 +124,11 @@ template <class A> static std::vector<std::string> transcript(const std::vector<
         int rc1 = A::ToStringCharsRequired(&w.at(ix(op.i)).uri, &need);
         int cap = op.arg;
         std::unique_ptr<Ch[]> d(new Ch[cap > 0 ? cap : 1]);
+        memset(d.get(), 0xA5, (size_t)(cap > 0 ? cap : 1) * sizeof(Ch));
         d[0] = (Ch)'#';
         int rc2 = A::ToString(d.get(), &w.at(ix(op.i)).uri, cap, &cw);
         std::string txt;
-        if (rc2 == 0) txt = narrow<Ch>(d.get(), d.get() + (cw > 0 ? cw - 1 : 0));
+        if (rc2 == 0) { txt = narrow<Ch>(d.get(), d.get() + (cw > 0 ? cw - 1 : 0)); if (!narrowable<Ch>(d.get(), d.get() + (cw > 0 ? cw - 1 : 0))) txt += "<characters beyond 255>"; }
         rec += "need=" + std::to_string(rc1) + "/" + std::to_string(need) + " cap=" + std::to_string(cap) + " rc=" + std::to_string(rc2) + " cw=" + std::to_string(cw) + " '" + esc(txt) + "'" +
                (rc2 != 0 && cap >= 1 ? std::string(" first=") + std::to_string((int)(d[0] & 0xff)) : "");
       } break;
